@@ -30,6 +30,8 @@ def _kw_atts(kwargs):
     base = T.NOATTS
     named = {}
     for k, v in kwargs.items():
+        if isinstance(v, Sym):
+            v = v.t
         if k == "**":
             base = v if z3.is_expr(v) else alpha({kk: _enc(kk, vv) for kk, vv in v.items()})
         else:
@@ -48,13 +50,134 @@ def _fmtstr_kw_result(a, st):
     ch = T.ChunkS.mkchunk(s, at)
     u = z3.Unit(ch)
     st.fact(T.Lemmas.list_unit(u, ch), T.Lemmas.list_basic(u), z3.Length(u) == 1)
+    cells_nth_facts(st, s, at)
+    raw = a._raw["string"]
+    if isinstance(raw, Sym) and raw.origin and raw.origin[0] == "spaces":
+        spaces_nth_facts(st, raw.origin[1])
     return Sym("fmtstr", T.FmtS.mkfmt(u))
 
 
+def _blank_or_plain(a):
+    raw = a._raw["string"]
+    if isinstance(raw, str):
+        return "\x1b[" not in raw
+    if isinstance(raw, Sym) and raw.origin and raw.origin[0] == "spaces":
+        return True                 # a run of blanks contains no ESC[ (definition of PLAIN)
+    return PLAIN(F._as_str_term(a.string))
+
+
 fmtstr_kw = Contract(M + "fmtstr#attributes", "C14", ["string", "**kwargs"], shapes=[],
-                     requires=lambda a: True if isinstance(a.string, str) and "\x1b[" not in a.string else PLAIN(F._as_str_term(a.string)),
+                     requires=_blank_or_plain,
                      raises={"ValueError": "may"},
                      result=_fmtstr_kw_result,
                      doc="ASSUMED callee form: fmtstr(s, **atts) for s free of ESC[ and attribute values read from existing runs is "
                          "FmtStr(Chunk(s, atts)) or raises ValueError; parse_args is decided by the bounded suite of C14")
 fmtstr_kw.assumed = True
+
+
+# ------------------------------------------------------------------ spec functions local to this file
+#   NOBG(xs): the run list with the background colour removed from every run (what new_with_atts_removed('bg') returns: its verified
+#   postcondition - same number of runs, same texts, attributes minus bg - determines the result completely, so the result IS this
+#   function of the argument; asserted in callee mode only).  Ground lemma schemas (map over runs commutes with the cell view):
+#       |VIEW(NOBG xs)| = |VIEW xs|,  VIEW(NOBG xs)[i] = (ch(VIEW xs [i]), atts(VIEW xs [i]) - bg)        lean/Lemmas.lean view_map_atts
+NOBG = z3.Function("NOBG", T.SCh, T.SCh)
+RM_BG = lambda at: rem_term(at, ("bg",))
+
+
+def nobg_facts(st, xs):
+    ys = NOBG(xs)
+    V, W = T.VIEW(xs), T.VIEW(ys)
+    st.fact(z3.Length(ys) == z3.Length(xs), z3.Length(W) == z3.Length(V), T.TOTLEN(ys) == T.TOTLEN(xs), T.Lemmas.list_basic(ys))
+    st.add_inst(lambda i: Implies(And(i >= 0, i < z3.Length(V)),
+                                  W[i] == T.Cell.mkcell(T.Cell.ch(V[i]), RM_BG(T.Cell.catts(V[i])))))
+
+
+def _nwar_effect(a, st, res):
+    if tuple(a.attributes) == ("bg",) and z3.is_expr(a.self):
+        xs = T.FmtS.chunks(a.self)
+        st.fact(T.FmtS.chunks(res.t) == NOBG(xs))
+        nobg_facts(st, xs)
+
+
+A.new_with_atts_removed.effect = _nwar_effect
+
+
+def cells_nth_facts(st, s, at):
+    """CELLS(s, at)[j] == (s[j], at)   (definition of CELLS as a map; lean: cells_getElem)"""
+    C = T.CELLS(s, at)
+    st.fact(z3.Length(C) == z3.Length(s))
+    st.add_inst(lambda j: Implies(And(j >= 0, j < z3.Length(s)), C[j] == T.Cell.mkcell(s[j], at)))
+
+
+def spaces_nth_facts(st, k):
+    sp = T.SPACES(k)
+    st.fact(z3.Length(sp) == z3.If(k > 0, k, 0))
+    st.add_inst(lambda j: Implies(And(j >= 0, j < z3.Length(sp)), sp[j] == 32))
+
+
+# ------------------------------------------------------------------ ljust / rjust
+def _just_ensures(left):
+    def ens(a, r):
+        if not z3.is_expr(a.self):
+            return _just_concrete(left, a, r)
+        st = a.final_state
+        xs = T.FmtS.chunks(a.self)
+        V, R = T.VIEW(xs), cells(r)
+        n = z3.Length(V)
+        pad = S.Max(0, a.width - n)
+        off = z3.IntVal(0) if left else pad          # where the original characters start in the result
+        ps = n if left else z3.IntVal(0)             # where the padding starts
+        st.add_index(ps)
+        st.add_index(z3.IntVal(0))
+        P = T.Cell.catts(R[ps])
+        return [("post.length_of_str_just", z3.Length(R) == n + pad),
+                ("post.text_kept", lambda i: Implies(And(i >= 0, i < n), T.Cell.ch(R[off + i]) == T.Cell.ch(V[i]))),
+                ("post.padding_is_blanks", lambda j: Implies(And(j >= 0, j < pad), T.Cell.ch(R[ps + j]) == 32)),
+                ("post.own_formatting_kept_but_for_an_unshared_background",
+                 lambda i: Implies(And(i >= 0, i < n), Or(T.Cell.catts(R[off + i]) == T.Cell.catts(V[i]),
+                                                          T.Cell.catts(R[off + i]) == RM_BG(T.Cell.catts(V[i]))))),
+                ("post.padding_uniform", lambda j: Implies(And(j >= 0, j < pad), T.Cell.catts(R[ps + j]) == P)),
+                ("post.padding_shows_only_formatting_every_character_has",
+                 lambda i: Implies(And(pad > 0, i >= 0, i < z3.Length(xs), z3.Length(T.ChunkS.s(xs[i])) > 0),
+                                   And(*[Implies(FIELD[k](P) != 0, FIELD[k](T.ChunkS.atts(xs[i])) == FIELD[k](P)) for k in ATT_KEYS])))]
+    return ens
+
+
+def _just_concrete(left, a, r):
+    from bounded.common import cells as ccells
+    V, R = ccells(a.self), ccells(r)
+    n = len(V)
+    pad = max(0, a.width - n)
+    off, ps = (0, n) if left else (pad, 0)
+    own = R[off:off + n]
+    padc = R[ps:ps + pad]
+    nobg = lambda at: tuple(x for x in at if x[0] != "bg")
+    out = [("post.length_of_str_just", len(R) == n + pad),
+           ("post.text_kept", [c for c, _ in own] == [c for c, _ in V]),
+           ("post.padding_is_blanks", all(c == " " for c, _ in padc)),
+           ("post.own_formatting_kept_but_for_an_unshared_background", all(b == a0 or b == nobg(a0) for (_, a0), (_, b) in zip(V, own))),
+           ("post.padding_uniform", len({b for _, b in padc}) <= 1)]
+    if padc and V:
+        P = padc[0][1]
+        out.append(("post.padding_shows_only_formatting_every_character_has", all(set(P) <= set(a0) for _, a0 in V)))
+    return out
+
+
+def _just_requires(a):
+    if not z3.is_expr(a.self):
+        return True
+    xs = T.FmtS.chunks(a.self)
+    return [T.Lemmas.list_basic(xs)]
+
+
+def _mk(name, left):
+    c = Contract(M + "FmtStr." + name, "C15", ["self", "width", "fillchar"], kind="method", defaults={"fillchar": None},
+                 shapes=[Shape("pad_with_blanks", dict(self=FmtT(), width=IntT(), fillchar=NoneT))],
+                 ensures=_just_ensures(left), result=FmtT(), callees={"fmtstr": M + "fmtstr#attributes"})
+    c.raises_allowed = ("ValueError",)      # parse_args rejects attribute values that are not valid codes (a run built by hand with them)
+    return c
+
+
+ljust = _mk("ljust", True)
+rjust = _mk("rjust", False)
+CONTRACTS = [ljust, rjust]
